@@ -40,6 +40,7 @@ def J():
 
 
 ETAS = [0.01, -0.01, 1.0, -1.0, 37.0, -37.0]
+SLOP = 8.0     # the cumulative-sum forms add and subtract the local term: allow a few times the dense term bound
 
 
 def _dyadic_boundaries(rng, K, bits=6):
@@ -48,7 +49,6 @@ def _dyadic_boundaries(rng, K, bits=6):
     n = 2 ** bits
     cuts = np.sort(rng.choice(np.arange(1, n), size=K - 1, replace=False)) if K > 1 else np.array([], dtype=int)
     return (np.concatenate([[0], cuts, [n]]) / n).astype(np.float64)
-SLOP = 8.0     # the cumulative-sum forms add and subtract the local term: allow a few times the dense term bound
 
 
 def _levels(rng, K, r, reps, quick):
